@@ -12,6 +12,7 @@ import Mathlib.Tactic.FieldSimp
 import OdlModel.Model.ElemOps
 import OdlModel.Lemmas.CRat
 import OdlModel.Gen.LincombFront
+import OdlModel.Gen.Broadcast
 
 namespace OdlModel.C01
 open OdlModel.Lincomb OdlModel.Gen.Lincomb
@@ -436,6 +437,111 @@ theorem C01.plincomb_correct (lc : LC K) (h : LCSpec lc) (a b : K) :
         rw [f buf hb'.2, f1 buf hb'.1]
 
 end
+
+/-! ## In-place power-space broadcasting (`x *= x[0]`, `x += other` …) -/
+
+section
+variable {K : Type} [Field K] [DecidableEq K]
+
+/-- What one loop step `xi op= other` has to do: the part gets `g part other` computed from
+the PRE-state (also when `xi is other`), nothing else but the scratch slot `t'` may change.
+`ok` is the condition on the operand under which exact arithmetic defines the result. -/
+def BStepOK (step : BStep K) (g : K → K → K) (ok : Vec K → Prop) (t' : Nat) : Prop :=
+  ∀ p o m, t' ≠ p → t' ≠ o → ok (m o) →
+    ∃ m', step p o m = some m' ∧ (∀ i, m' p i = g (m p i) (m o i)) ∧
+      ∀ b, b ≠ p → b ≠ t' → m' b = m b
+
+/-- The loop over the parts with an operand that is NOT one of the parts. -/
+theorem C01.bcastLoop_ok (step : BStep K) (g : K → K → K) (ok : Vec K → Prop) (t' o : Nat)
+    (hs : BStepOK step g ok t') :
+    ∀ (ps : List Nat) (m : Mem K), ps.Nodup → o ∉ ps → t' ∉ ps → t' ≠ o → ok (m o) →
+      ∃ m', bcastLoop step o ps m = some m' ∧ (∀ p ∈ ps, ∀ i, m' p i = g (m p i) (m o i)) ∧
+        ∀ b, b ∉ ps → b ≠ t' → m' b = m b := by
+  intro ps
+  induction ps with
+  | nil => intro m _ _ _ _ _; exact ⟨m, rfl, by simp, fun _ _ _ => rfl⟩
+  | cons p ps ih =>
+    intro m hnd ho ht' hto hok
+    have hpo : o ≠ p := fun h => ho (by simp [h])
+    have hops : o ∉ ps := fun h => ho (by simp [h])
+    have htp : t' ≠ p := fun h => ht' (by simp [h])
+    have htps : t' ∉ ps := fun h => ht' (by simp [h])
+    have hpps : p ∉ ps := (List.nodup_cons.mp hnd).1
+    obtain ⟨m1, e1, v1, f1⟩ := hs p o m htp hto hok
+    have hm1o : m1 o = m o := f1 o hpo (Ne.symm hto)
+    obtain ⟨m', e, v, f⟩ := ih m1 (List.nodup_cons.mp hnd).2 hops htps hto (by rw [hm1o]; exact hok)
+    refine ⟨m', by simp [bcastLoop, e1, e], ?_, ?_⟩
+    · intro q hq i
+      rcases List.mem_cons.mp hq with rfl | hq
+      · rw [f q hpps (Ne.symm htp), v1 i]
+      · have hqp : q ≠ p := fun h => hpps (h ▸ hq)
+        have hqt : q ≠ t' := fun h => htps (h ▸ hq)
+        rw [v q hq i, f1 q hqp hqt, hm1o]
+    · intro b hb hbt
+      have hbp : b ≠ p := fun h => hb (by simp [h])
+      have hbps : b ∉ ps := fun h => hb (by simp [h])
+      rw [f b hbps hbt, f1 b hbp hbt]
+
+/-- `x op= other` in a power space, with the copy guard AS EXTRACTED from
+`_broadcast_arithmetic_impl` (`Gen.Broadcast.copyGuard`): for pairwise distinct part buffers
+`ps`, any operand buffer `o` — one of the parts or not — and fresh buffers `t`, `t'`, every
+part ends up holding `g part other` computed from the ORIGINAL contents of `other`, and no
+buffer outside the parts and the two scratch slots changes (so an external operand is never
+modified). Re-checked against the source on every run: without the guard the statement is
+false (`C01.bcast_without_copy_fails`). -/
+theorem C01.bcast_inplace_correct (lc : LC K) (h : LCSpec lc) (step : BStep K) (g : K → K → K)
+    (ok : Vec K → Prop) (t' : Nat) (hs : BStepOK step g ok t')
+    (ps : List Nat) (o t : Nat) (m : Mem K) (hnd : ps.Nodup) (ht : t ∉ ps) (hto : t ≠ o)
+    (ht' : t' ∉ ps) (hto' : t' ≠ o) (htt : t' ≠ t) (hok : ok (m o)) :
+    ∃ m', bcastInPlace lc step OdlModel.Gen.Broadcast.copyGuard ps o t m = some m' ∧
+      (∀ p ∈ ps, ∀ i, m' p i = g (m p i) (m o i)) ∧
+      ∀ b, b ∉ ps → b ≠ t → b ≠ t' → m' b = m b := by
+  have hg : OdlModel.Gen.Broadcast.copyGuard = true := rfl
+  unfold bcastInPlace
+  by_cases hmem : o ∈ ps
+  · have hc : (OdlModel.Gen.Broadcast.copyGuard && ps.contains o) = true := by
+      simp [hg, hmem]
+    rw [if_pos hc]
+    obtain ⟨m1, e1, v1, f1⟩ := C01.lincomb1_ok lc h 1 o t m
+    have hm1t : m1 t = m o := by funext i; rw [v1 i]; simp
+    obtain ⟨m', e, v, f⟩ := C01.bcastLoop_ok step g ok t' t hs ps m1 hnd ht ht' htt
+      (by rw [hm1t]; exact hok)
+    refine ⟨m', by simp [e1, e], ?_, ?_⟩
+    · intro p hp i
+      have hpt : p ≠ t := fun h => ht (h ▸ hp)
+      rw [v p hp i, f1 p hpt, hm1t]
+    · intro b hb hbt hbt'
+      rw [f b hb hbt', f1 b hbt]
+  · have hc : ¬ ((OdlModel.Gen.Broadcast.copyGuard && ps.contains o) = true) := by
+      simp [hmem]
+    rw [if_neg hc]
+    obtain ⟨m', e, v, f⟩ := C01.bcastLoop_ok step g ok t' o hs ps m hnd hmem ht' hto' hok
+    exact ⟨m', e, v, fun b hb _ hbt' => f b hb hbt'⟩
+
+/-- The four in-place element operators used by the broadcasting loop meet `BStepOK`
+(from `C01.elem_op_correct`), division where the operand has no zero entry. -/
+theorem C01.opStep_ok (lc : LC K) (h : LCSpec lc) (op : Op)
+    (hop : op = .iaddE ∨ op = .isubE ∨ op = .imulE ∨ op = .idivE) (t' : Nat) :
+    BStepOK (opStep lc op t') (fun u v => op.spec 0 u v)
+      (fun v => op = .idivE → ∀ i, v i ≠ 0) t' := by
+  intro p o m htp hto hok
+  have hdiv : DivOK op 0 (m p) (m o) := by
+    rcases hop with rfl | rfl | rfl | rfl <;> simp [DivOK] <;> exact hok rfl
+  obtain ⟨m', r, e, hr, v, f⟩ := C01.elem_op_correct lc h op p o t' 0 m htp hto hdiv
+  have hrp : r = p := by
+    rcases hop with rfl | rfl | rfl | rfl <;> simpa [Op.inPlace] using hr
+  subst hrp
+  exact ⟨m', by simp [opStep, e], v, fun b hb hbt => f b hb hbt⟩
+
+end
+
+/-- Sensitivity (the behaviour before the repair 60d322b): without the copy, `x *= x[0]` on
+the two-part element `([2], [3])` leaves `12` in the second part instead of `6`. -/
+theorem C01.bcast_without_copy_fails :
+    let step : BStep ℤ := fun p o m => some (m.write p (fun i => m p i * m o i))
+    let m : Mem ℤ := fun b _ => if b = 0 then 2 else 3
+    (bcastLoop step 0 [0, 1] m).map (fun m' => m' 1 0) = some 12 ∧ (3 : ℤ) * 2 = 6 := by
+  decide
 
 /-- Non-vacuity of the element layer: `x **= 5` on a concrete rational buffer, through the
 extracted tensor `_lincomb`. -/
